@@ -61,6 +61,7 @@ type answer struct {
 	neterr  bool
 	redir   bool
 	same    bool // redir: the Location is the request's own URL
+	cut     bool // the body read fails after a few bytes
 	timeout bool
 	viaGET  bool // answer to the GET that a redirect turned the POST into: never a success
 }
@@ -75,6 +76,8 @@ var menu = []answer{
 	{name: "503", status: 503, body: "text"},
 	{name: "503ra5", status: 503, ra: "5", body: "text"},
 	{name: "503ra0", status: 503, ra: "0", body: "text"},
+	{name: "503cut", status: 503, body: "text", cut: true}, // status line and headers arrive, the connection drops inside the body: still a 503, still a transport error
+	{name: "200cut", status: 200, body: "ok", cut: true},   // a 200 whose body cannot be read is not a parsable 200
 	{name: "503ra010", status: 503, ra: "010", body: "text"}, // delay-seconds is 1*DIGIT: leading zeros are decimal (10 s, not octal 8)
 	{name: "429ra08", status: 429, ra: "08", body: "text"},   // 8 s, not an unparsable header // a server-directed delay of nothing: still no licence to wait longer later
 	{name: "429ra300", status: 429, ra: "300", body: "text"}, // more than the 128 s cap: must not stick to later answers
@@ -231,9 +234,33 @@ func (g *gatedRT) RoundTrip(req *http.Request) (*http.Response, error) {
 			h.Set("Location", "/redirected?c="+c)
 		}
 	}
+	var rbody io.ReadCloser = io.NopCloser(strings.NewReader(b))
+	if a.cut {
+		n := 7
+		if n > len(b) {
+			n = len(b)
+		}
+		rbody = &cutBody{data: []byte(b[:n])}
+	}
 	return &http.Response{StatusCode: a.status, Status: fmt.Sprintf("%d %s", a.status, http.StatusText(a.status)), Header: h,
-		Body: io.NopCloser(strings.NewReader(b)), Request: req, Proto: "HTTP/1.1", ProtoMajor: 1, ProtoMinor: 1}, nil
+		Body: rbody, Request: req, Proto: "HTTP/1.1", ProtoMajor: 1, ProtoMinor: 1}, nil
 }
+
+// cutBody delivers a few bytes and then fails like a connection that dropped.
+type cutBody struct {
+	data []byte
+	off  int
+}
+
+func (c *cutBody) Read(p []byte) (int, error) {
+	if c.off >= len(c.data) {
+		return 0, io.ErrUnexpectedEOF
+	}
+	n := copy(p, c.data[c.off:])
+	c.off += n
+	return n, nil
+}
+func (c *cutBody) Close() error { return nil }
 
 // transportTimeout mimics net/http's per-attempt timeout errors: a net.Error with
 // Timeout() == true that also matches context.DeadlineExceeded under errors.Is.
@@ -452,7 +479,7 @@ const jitter = 250 * time.Millisecond
 const cap128 = 128 * time.Second
 
 func retryable(a *answer) bool {
-	return a.neterr || a.viaGET || (a.status == 200 && (a.body == "badjson" || a.body == "empty")) || a.status == 408 || a.status == 429 || a.status == 503 || a.redir
+	return a.neterr || a.cut || a.viaGET || (a.status == 200 && (a.body == "badjson" || a.body == "empty")) || a.status == 408 || a.status == 429 || a.status == 503 || a.redir
 }
 
 func oracle(sc scenario, x *gate.Exec, rec *recorder, callers []*caller) {
@@ -513,7 +540,7 @@ func oracle(sc scenario, x *gate.Exec, rec *recorder, callers []*caller) {
 					if !retryable(a) && e.method == http.MethodPost {
 						x.Violation("retry-after-final-status", "caller %s: a new request followed answer %s, which must end the call", c.name, a.name)
 					}
-					if a.status == 200 && a.body == "ok" && lastAns.method == http.MethodPost {
+					if a.status == 200 && a.body == "ok" && !a.cut && lastAns.method == http.MethodPost {
 						x.Violation("request-after-success", "caller %s: a request was sent after the parsable 200", c.name)
 					}
 					if a.redir {
@@ -560,7 +587,7 @@ func oracle(sc scenario, x *gate.Exec, rec *recorder, callers []*caller) {
 		// the return
 		switch {
 		case ret.ok:
-			if lastAns == nil || !(lastAns.ans.status == 200 && lastAns.ans.body == "ok" && lastAns.method == http.MethodPost) {
+			if lastAns == nil || !(lastAns.ans.status == 200 && lastAns.ans.body == "ok" && !lastAns.ans.cut && lastAns.method == http.MethodPost) {
 				nm := "none"
 				if lastAns != nil {
 					nm = lastAns.method + " " + lastAns.ans.name
@@ -583,7 +610,7 @@ func oracle(sc scenario, x *gate.Exec, rec *recorder, callers []*caller) {
 			var re jsonclient.RspError
 			isRsp := errors.As(ret.err, &re)
 			ctxErr := errors.Is(ret.err, context.Canceled) || errors.Is(ret.err, context.DeadlineExceeded)
-			final := lastAns != nil && !retryable(lastAns.ans) && !(lastAns.ans.status == 200 && lastAns.ans.body == "ok")
+			final := lastAns != nil && !retryable(lastAns.ans) && !(lastAns.ans.status == 200 && lastAns.ans.body == "ok" && !lastAns.ans.cut)
 			switch {
 			case final && lastAns.t == ret.t && (!ended || c.endAt > lastAns.t || !ctxErr):
 				// ended by a non-retryable status: must carry status and body
@@ -677,7 +704,7 @@ func TestCheck(t *testing.T) {
 		scenario{Name: "3 callers sharing a LogClient, prompt server, network keeps failing", API: "logclient", Callers: 3, Ctx: []string{"none", "none", "none"}, MaxBad: kb - 2, Bound: bb - 1, Default: "neterr", Prompt: true, Seed: 3},
 		scenario{Name: "1 caller, json, server keeps answering 503 with Retry-After: 0", API: "json", Callers: 1, Ctx: []string{"cancel"}, MaxBad: kb, Bound: bb, Default: "503ra0"},
 		scenario{Name: "3 callers sharing a client, server keeps answering 429", API: "json", Callers: 3, Ctx: []string{"none", "none", "none"}, MaxBad: kb - 2, Bound: bb - 1, Default: "429"})
-	r.Rule("for each scenario, every choice vector of total deviation cost <= bound (a deviation = answering a pending request other than the canonically first, any answer other than a parsable 200 out of a 22-answer menu, a slow server, a cancellation at one of 4 instants); executions run to completion under virtual time. distinct_nontrivial = distinct observed outcomes (per-caller answer sequence and result)")
+	r.Rule("for each scenario, every choice vector of total deviation cost <= bound (a deviation = answering a pending request other than the canonically first, any answer other than a parsable 200 out of a 24-answer menu, a slow server, a cancellation at one of 4 instants); executions run to completion under virtual time. distinct_nontrivial = distinct observed outcomes (per-caller answer sequence and result)")
 	r.Assume("client jitter (math/rand, 0..249 ms) is not owned: oracles use only the bounds the property states; requests arriving within 300 ms of each other are presented together",
 		"interleavings are explored at the granularity of HTTP round trips; lock-level interleavings inside the shared backoff are covered by the free-running race pass")
 	var summary []map[string]any
